@@ -511,17 +511,39 @@ def check_precedence(ck, n):
 
 def builtin_specs(ck, date, n):
     """every built-in group aggregation spec yields exactly the aggregation it names -- also where the
-    column name equals <source>_<group>, i.e. where the automatic sum would apply without the spec"""
+    column name equals <source>_<group>, i.e. where the automatic sum would apply without the spec.
+    Also with a USER spec that overrides one built-in key: the user's aggregation for that key, the built-in one
+    for every other key (its sibling levels included).  The expected specs are a snapshot taken before any graph
+    with user specs is built (a loader that mutates the built-in spec objects must not hide behind its own
+    mutation)."""
+    import copy
     from _gettsim.config import TYPES_INPUT_VARIABLES
     from _gettsim.functions_loader import load_aggregation_dict
-    specs = load_aggregation_dict("aggregate_by_group")
+    specs = copy.deepcopy(load_aggregation_dict("aggregate_by_group"))
     P, F = gt.env(date)
     usable = {k: v for k, v in specs.items() if v["aggr"] == "count" or v.get("source_col") in F or v.get("source_col") in TYPES_INPUT_VARIABLES}
+    # (1) a user spec overriding one built-in key of a family with several levels
+    fam = sorted(k for k, v in usable.items() if v.get("source_col") == "alleinerz")
+    if len(fam) >= 2:
+        over = fam[-1]
+        flipped = "all" if usable[over]["aggr"] == "any" else "any"
+        user = {over: {"source_col": "alleinerz", "aggr": flipped}}
+        try:
+            dag_u = symdag.Dag(date, targets=fam, rounding=False, aggregate_by_group_specs=user)
+            expected = {k: (user[k] if k in user else usable[k]) for k in fam}
+            _specs_yield(ck, dag_u, expected, n, f" [user spec overrides {over}]", dedupe=False)
+        except Exception as e:   # noqa: BLE001
+            ck.add_inconclusive(f"user override of {over}: graph not built ({type(e).__name__}: {e})"[:200])
+    # (2) no user specs (after (1): the built-in specs must be what they were)
     try:
         dag = symdag.Dag(date, targets=sorted(usable), rounding=False)
     except Exception as e:   # noqa: BLE001
         ck.add_inconclusive(f"built-in specs: graph not built ({type(e).__name__}: {e})"[:200])
         return
+    _specs_yield(ck, dag, usable, n, "", dedupe=True)
+
+
+def _specs_yield(ck, dag, usable, n, tag, dedupe):
     seen = set()
     for name, spec in sorted(usable.items()):
         g = gt.suffix_group(name)
@@ -529,7 +551,7 @@ def builtin_specs(ck, date, n):
         src = spec.get("source_col")
         sig = (kind, g, None if src is None else dag.return_type(src))
         shadow = src is not None and name == f"{src}_{g}"
-        if sig in seen and not shadow:
+        if dedupe and sig in seen and not shadow:
             continue          # same aggregation kind / group / source type already proved
         seen.add(sig)
         gid = ints("g", n)
@@ -556,7 +578,7 @@ def builtin_specs(ck, date, n):
                 bad.append(z3.And(d(bt), R.num(r)[0] != z3.If(bt, 1, 0)))
             else:
                 bad.append(z3.Not(d(T(r, float if kind == "mean" else None))))
-        r, m = ck.oblige(f"built-in spec {name} = {kind}({src}) by {g}", pre + [z3.Or(bad)], 60,
+        r, m = ck.oblige(f"built-in spec {name} = {kind}({src}) by {g}{tag}", pre + [z3.Or(bad)], 60,
                          sample=None if len(ck.samples) > 10 else {"spec": name, "expected": f"{kind} of {src} by {g}_id", "rows": n})
         ck.nontrivial.add(("builtin", name))
         if r == "sat":
@@ -570,7 +592,7 @@ def builtin_specs(ck, date, n):
                 out = f"raises {type(e).__name__}"
             want = reference_grouped(kind, [kw[src], gg] if col is not None else [gg])
             if isinstance(out, str) or not _close_list(out, want):
-                ck.violation(["builtin-spec", name], f"{name}: built-in spec says {kind}({src}) but the column is {out}, expected {want} for {({k: v.tolist() for k, v in kw.items()})}",
+                ck.violation(["builtin-spec", name], f"{name}{tag}: the spec says {kind}({src}) but the column is {out}, expected {want} for {({k: v.tolist() for k, v in kw.items()})}",
                              {"kind": "prec", "lab": name})
             else:
                 common.spurious("C11", f"built-in spec {name}")
